@@ -26,7 +26,14 @@ Print Assumptions response_conforms.
     sub-selection on a scalar or enum, no sub-selection on an object or union.  Skipping an
     already-seen (type, fragment) pair never hides a failure: the set of pairs a successful run ends
     with justifies itself (every pair's body is well-formed relative to the set), so every applicable
-    part is well-formed relative to it. *)
+    part is well-formed relative to it.
+    This is the theorem that rules out a memo keyed by the selection set alone: [applies] follows a
+    named fragment under EVERY object type (and union member) it is spread under, so
+    `{ car { ...F } boat { ...F } } fragment F on Car { name wheels }` with no `wheels` on Boat has a
+    [bad] applicable part (Boat, body of F) and must be rejected; the model's memo is keyed by
+    (type, fragment), and the proof needs exactly that the pair - not the fragment - is in the set.
+    The harness generates such spreads (QGen.PCross) and decides the expected verdict from the
+    introspection JSON alone (ISchema.IllFormed). *)
 Theorem rejection_complete :
   forall (v : variant) (sch : schema) (root : string) (q : query) (tn' : string) (l' : list titem),
     applies sch (q_frags q) root (q_sel q) tn' l' -> bad sch tn' l' ->
